@@ -26,7 +26,7 @@ ReqOK(e, es, s) ==
         /\ May(es, e, s, o.t0) \/ May(es, e, s, o.t1)
         /\ IF InSession(es, q) THEN o.idIsSessions ELSE IdOK(q, o, s)      \* the identity in the context is the accepted one
   /\ o.outcome = "refused" => o.status = 401 /\ o.challengeNegotiate
-  /\ o.outcome = "error5xx" => q.store \in {"getFails", "newFails"}
+  /\ o.outcome = "error5xx" => q.store \in {"getFails", "getFailsStale", "newFails"}
   \* no token-verification API reports success for a token that does not contain an accepted AP-REQ
   /\ e.api.acceptPanic = "" /\ e.api.directPanic = ""
   /\ e.api.accept => \E t \in {e.api.t0, e.api.t1} : CarriesAccepted(e.apiq, s, TFc(e.apiq.ap, e.apiconc, t), FALSE)
